@@ -127,10 +127,11 @@ def x1(run, model, vh, quick):
         sent = [b"ok"] + [vlib.dec(vlib.enc(x)) for x in c]
         changed = i != sent
         # model: wire_ok -> normalise; exact iff printable too (proved). Compare the implementation with that.
-        if p[0] == b"1" and p[2] == b"1" and changed:
+        if p[0] == b"1" and changed and not P.msg_nonprintable(c) and not P.msg_has_tab_in_files(c):
             st["disagreements"] += 1
-            run.violation("rt:" + sha(vlib.enc_case(c)), "round trip changed a wire_ok printable message on the implementation",
-                          {"message": vlib.show(c), "received": vlib.show(i), "how": "echo %s | build/harness/vh_c15 rtimpl" % vlib.enc_case(c)})
+            if st["disagreements"] <= 3:
+                run.violation("rt:" + sha(vlib.enc_case(c)), "round trip changed a wire_ok printable message on the implementation",
+                              {"message": vlib.show(c), "received": vlib.show(i), "how": "echo %s | build/harness/vh_c15 rtimpl" % vlib.enc_case(c)})
         if changed and p[0] == b"1" and P.msg_nonprintable(c):
             seen_fix += 1
         if changed and P.msg_has_tab_in_files(c):
